@@ -17,7 +17,9 @@ class C15(scen.WorldProp):
                 "Wheatley.C15.first_row_from_leader",
                 "Wheatley.C15.look_to_with_hold_up",
                 "Wheatley.C15.wait_cancels_hold_up",
-                "Wheatley.C15.first_strike_despite_hold_up"]
+                "Wheatley.C15.first_strike_despite_hold_up",
+                "Wheatley.C15.lookToRest_keeps",
+                "Wheatley.C15.resume_anchors_with_current_hold_up"]
     level_text = ("theorems (any ordered field): initialise_line anchors the line at Look To + 3 s when Wheatley leads "
                   "and at the 'not yet' sentinel when a human leads; with the sentinel a user-controlled turn is the "
                   "pull-off loop, which cannot end before the leader's strike re-anchors the line at that strike's "
